@@ -116,7 +116,13 @@ fn k_c12_cursor_not_rebased(_cfg: &Config, ops: &[Op], _last: &Op, res: &JobResu
 /// appends, empty batches), or the first entry written through a topic's writer was larger
 /// than a block, so the block handed to that writer in that incarnation stayed unwritten.
 fn k_c06_tail_id_drift(cfg: &Config, ops: &[Op], _last: &Op, res: &JobResult, _pre: &Model, x: &Discrepancy) -> bool {
-    if cfg.cons != Consistency::Strict || !x.pure_redelivery || !matches!(x.class, "count" | "read.order") {
+    // The shifted ids either name no block (the consumer starts its block over: pure
+    // redelivery) or name a later block of the topic (the entries in between are skipped:
+    // pure loss); anything mixed, foreign or reordered is not this finding.
+    // (AtLeastOnce consumers are hit the same way: starting the block over redelivers more
+    // than persist_every entries.)
+    let _ = cfg;
+    if !(x.pure_redelivery || x.pure_loss) || !matches!(x.class, "count" | "read.order" | "read.empty") {
         return false;
     }
     let Some(ri) = ops.iter().rposition(|o| matches!(o, Op::Reopen | Op::Restart)) else { return false };
